@@ -11,7 +11,7 @@ from py_gql.lang.visitor import ChainedVisitor
 from py_gql.validation import SPECIFIED_RULES, validate_ast
 from py_gql.validation.visitors import TypeInfoVisitor
 from harness import gqlworld as G
-from harness.c05 import SOURCES
+from harness.c05 import SOURCES, VALID_TEMPLATE
 
 _SCHEMA = None
 
@@ -138,7 +138,7 @@ def _metamorphic(src: int, mask: int, spelling: int) -> bool:
         new = parse(respell(new, SP))
         rules, verdict = violated_rules(new)
         ok = rules == base_rules and verdict == base_verdict and (verdict == (not rules))
-        if S < len(G.TEMPLATES):
+        if S in VALID_TEMPLATE:
             ok = ok and verdict          # valid templates stay valid
     return result(ok, bool(M))
 
